@@ -13,6 +13,7 @@ def Ev.failureFree : Ev → Bool
   | .crash => false
   | .restart => false
   | .reset _ => false
+  | .killed _ => false   -- a job that dies without a trace
   | _ => true
 
 def FailureFree (h : List Ev) : Prop := ∀ e ∈ h, e.failureFree = true
